@@ -243,6 +243,46 @@ class CircuitHarness:
             ids = [struct.unpack("<I", body[5 + 4 * i:9 + 4 * i])[0] for i in range(body[4])]
         return appended, ids
 
+    def ping_oracle(self, w: CWorld, bad):
+        """Forward translation through its other entry point: a forwarded StartPingCheck carries OldestUnacked = an id the endpoint
+        sent earlier; on the wire it must read the wire id that packet went out as (stable, never an injected id). The carrier
+        re-uses the endpoint's newest packet id, so the observation leaves the trackers as they are."""
+        if not w.max_sent or w.max_sent not in w.sent:
+            return
+        evicted = w.injected[:-self.maxlen] if len(w.injected) > self.maxlen else []
+        newest_evicted = evicted[-1] if evicted else 0
+        inj_all = set(w.injected)
+        todo = [(n, wire) for n, wire in sorted(w.sent.items()) if wire > newest_evicted and n not in w.oos and wire not in inj_all]
+        key = ("ping", _tstate(w.c.out_injections), tuple(todo), w.max_sent)
+        if key in self._ack_memo:
+            return
+        n_bad = len(w.violations)
+        for n, wire in todo:
+            before = len(w.tp.sent)
+            try:
+                m = Message("StartPingCheck", Block("PingID", PingID=7, OldestUnacked=n), packet_id=w.max_sent, flags=0, direction=Direction.OUT)
+                w.c.send(m)
+            except Exception as e:
+                bad("exception", "ProxiedCircuit:StartPingCheck", f"OldestUnacked={n}: {type(e).__name__}: {e}")
+                continue
+            got = None
+            for data, direction in w.tp.sent[before:]:
+                if direction == Direction.OUT:
+                    _f, _pid, off = struct.unpack(">BIB", data[:6])
+                    body = data[6 + off:]
+                    if body[:1] == b"\x01" and len(body) >= 6:
+                        got = struct.unpack("<I", body[2:6])[0]
+            del w.tp.sent[before:]
+            # documented: the proxy substitutes its own oldest unacknowledged reliable packet when that is older
+            own = [a for (d, a) in getattr(w.c, "unacked_reliable", {}).keys() if d == Direction.OUT]
+            if got != min([wire] + own):
+                what = "stable" if got not in inj_all else "avoid-injected"
+                bad(what, "ProxiedCircuit._rewrite_start_ping_check",
+                    f"injected so far {w.injected}, forwarded {sorted(w.sent.items())}: StartPingCheck.OldestUnacked={n} went out as {got}, "
+                    f"packet {n} itself went out as {wire}")
+        if len(w.violations) == n_bad:
+            self._ack_memo.add(key)
+
     def ack_oracle(self, w: CWorld, bad):
         """Back-translation as the endpoint sees it: for every ordered list of up to 3 of the newest in-scope wire ids, an
         inbound packet acknowledging them (appended to a forwarded packet, in a PacketAck body, appended to a dropped packet)
@@ -422,6 +462,8 @@ class CircuitHarness:
         self.oracle(w, bad)
         if not w.violations:
             self.ack_oracle(w, bad)
+        if not w.violations:
+            self.ping_oracle(w, bad)
 
     def oracle(self, w: CWorld, bad):
         t = w.c.out_injections
@@ -462,7 +504,7 @@ def run(run: Run):
                 "search over {S, S-first-sight-RESENT, G, O(n), O(n)-RESENT, I, D(rop), T(ake+reinject), DO(n)} on a real ProxiedCircuit "
                 "(tracker window 2 and 10000) observing packet ids on the captured datagrams and, in every state, the acks that reach the viewer for "
                 "every ordered list of up to 3 of the newest 3 (thorough: 4) wire ids acknowledged by an inbound packet (appended / PacketAck body / "
-                "appended to a dropped packet); "
+                "appended to a dropped packet), and the OldestUnacked a forwarded StartPingCheck carries for every in-scope id sent so far; "
                 "states deduplicated on (injections, bases, first-translation map, all-time injections); non-trivial = "
                 "distinct states in which some sent ID has a later injection above it (lookups below the newest injection)")
     run.assumptions += ["packet-id wrap-around excluded (documented unsupported)",
